@@ -85,6 +85,7 @@ def monitor (mn : Mon) (op : Op) (impl : String) : Mon × List (String × String
     | _ => mn
   let stops := parseCounts (field impl "stops")
   let ebpf := parseCounts (field impl "ebpf")
+  let padt := parseCounts (field impl "padt")
   let held := parseNames (field impl "held")
   let live := parseSess (field impl "sess")
   let get := fun (l : List (Nat × Nat)) (n : Nat) => ((l.find? (·.1 == n)).map (·.2)).getD 0
@@ -94,6 +95,9 @@ def monitor (mn : Mon) (op : Op) (impl : String) : Mon × List (String × String
     acc ++
     (if st > 1 then [("double-stop", "none", s!"{st} Accounting-Stops were issued for s{o.name}")] else []) ++
     (if eb > 1 then [("double-cleanup", "none", s!"the eBPF entry of s{o.name} was removed {eb} times")] else []) ++
+    (if get padt o.name > 1 then [("double-padt", "none", s!"{get padt o.name} PADTs were sent for s{o.name}")] else []) ++
+    -- recorded finding: nothing in pkg/pppoe ever issues the Accounting-Start this Stop belongs to
+    (if st ≥ 1 && !o.torn then [("stop-without-start", "KF-pppoe-no-acct-start", s!"an Accounting-Stop was issued for s{o.name} although no Accounting-Start is ever sent for PPPoE sessions")] else []) ++
     -- a session that has been torn down (its eBPF entry was removed) holds nothing any more
     (if eb ≥ 1 then
       (if held.contains o.name then [("residue", "none", s!"s{o.name} was terminated but its address is still allocated")] else []) ++
